@@ -25,13 +25,17 @@ import (
 // answer exactly as it does without the refresh.
 
 func runGatewayOnce(g *gateway, c *Case) (res interface{}, errs string) {
+	ctx, cancel := context.WithTimeout(context.Background(), 3*time.Second)
+	defer cancel()
+	return runGatewayCtx(ctx, g, c)
+}
+
+func runGatewayCtx(ctx context.Context, g *gateway, c *Case) (res interface{}, errs string) {
 	type out struct {
 		v   interface{}
 		err string
 	}
 	ch := make(chan out, 1)
-	ctx, cancel := context.WithTimeout(context.Background(), 3*time.Second)
-	defer cancel()
 	go func() {
 		var o out
 		defer func() {
@@ -140,14 +144,15 @@ func refreshMidRequest(run *vh.Run, idx int, c *Case, g *gateway, w *fedgen.Worl
 	all := make(chan struct{})
 	release := make(chan struct{})
 	var once sync.Once
-	gate := func(text string) {
+	gate := func(text string) error {
 		if isHop(text) {
-			return
+			return nil
 		}
 		if atomic.AddInt32(&arrived, 1) >= expected {
 			once.Do(func() { close(all) })
 		}
 		<-release
+		return nil
 	}
 	for _, cl := range g.clients {
 		if rc, ok := cl.(*recClient); ok {
@@ -208,4 +213,56 @@ func altSummary(c *Case, alt []fedgen.Service) string {
 	}
 	parts = append(parts, "objects keyed by id only")
 	return strings.Join(parts, ", ")
+}
+
+// The caller's context is cancelled while a sub-query is in flight (the service call fails with the context's
+// error): the request must fail -- never a "successful" answer with the fields of that sub-plan missing.
+func cancelMidRequest(run *vh.Run, idx int, c *Case, g *gateway, subs []subRequest, plain interface{}) {
+	hops := false
+	for _, s := range subs {
+		hops = hops || isHop(s.Text)
+	}
+	if len(subs) == 0 {
+		return
+	}
+	ctx, cancel := context.WithTimeout(context.Background(), 3*time.Second)
+	defer cancel()
+	var once sync.Once
+	var hit int32
+	gate := func(text string) error {
+		if isHop(text) != hops {
+			return nil
+		}
+		var err error
+		once.Do(func() {
+			atomic.StoreInt32(&hit, 1)
+			cancel()
+			err = ctx.Err()
+		})
+		return err
+	}
+	for _, cl := range g.clients {
+		if rc, ok := cl.(*recClient); ok {
+			rc.gate = gate
+		}
+	}
+	defer func() {
+		for _, cl := range g.clients {
+			if rc, ok := cl.(*recClient); ok {
+				rc.gate = nil
+			}
+		}
+	}()
+	v, errs := runGatewayCtx(ctx, g, c)
+	if atomic.LoadInt32(&hit) == 0 {
+		return
+	}
+	where := "root sub-query"
+	if hops {
+		where = "hop"
+	}
+	run.Hist("cancel-mid-request:" + where)
+	if errs == "" && !deepEqualJSON(v, plain) {
+		failCapped(run, idx, "gateway-answers-partially-when-request-is-cancelled", fmt.Sprintf("context cancelled during a %s: Execute returns no error and %s; the full answer is %s; query: %s", where, short(js(v), 300), short(js(plain), 300), short(c.text(), 400)), *c)
+	}
 }
